@@ -163,6 +163,7 @@ pub fn run(ctx: &Ctx) -> i32 {
     Structured(&'static str, u8),  // structured values x structured values
     UniqAll(u8, u64, u64),
     UniqClass(u8),
+    Periodic(&'static str, u8),     // periodic coordinate patterns (both half-words equal, byte / nibble patterns)
     Literals(u8),                  // coordinates taken from the integer literals of the sources, all pairs
     Windows(&'static str, u8, u32, u32), // all pairs of values of a 12-bit window at the same offset in i and j, i-window values [lo, hi)
   }
@@ -212,6 +213,13 @@ pub fn run(ctx: &Ctx) -> i32 {
       jobs.push(Job::Literals(d));
     }
   }
+  for d in 9..=29u8 {
+    for name in if quick { vec!["get_zoc"] } else { impl_names() } {
+      if zoc_by_name(name, d).is_some() {
+        jobs.push(Job::Periodic(name, d));
+      }
+    }
+  }
   // double windows: EVERY pair of values of a 12-bit window placed at the same offset in i and in
   // j (offsets 0..=17 at depth 29, other bits zero): a guard on the middle bits of both coordinates
   {
@@ -255,6 +263,19 @@ pub fn run(ctx: &Ctx) -> i32 {
         }
         part.stratum("uniq-all-hashes", hi - lo, 6 * (hi - lo));
         part.validated += hi - lo;
+      }
+      Job::Periodic(name, d) => {
+        if let Ok(Some(zoc)) = guarded(|| zoc_by_name(name, d)) {
+          let pairs = crate::alpha::periodic_pairs(d);
+          for &(i, j) in &pairs {
+            if let Some(v) = check_ij(name, zoc, d, i, j) {
+              part.viol(v);
+            }
+          }
+          let n = pairs.len() as u64;
+          part.stratum("periodic-coordinate-pairs", n, 6 * n);
+          part.validated += 5 * n;
+        }
       }
       Job::Literals(d) => {
         let v = crate::alpha::literal_coords(&lit_ints, d);
